@@ -527,7 +527,8 @@ def _find_bypassed_inputs(graph: Graph, provided: set[str], inputs_spec: InputSp
     # A node is bypassed only if ALL its non-cycle consumed outputs are provided
     bypassed_nodes: set[str] = set()
     for node in graph._nodes.values():
-        node_consumed_outputs = (set(node.outputs) & consumed_outputs) - cycle_ep_params
+        # A value the node also consumes itself (accumulator pattern) seeds the node; it does not replace it
+        node_consumed_outputs = (set(node.outputs) & consumed_outputs) - cycle_ep_params - set(node.inputs)
         if node_consumed_outputs and node_consumed_outputs <= provided:
             # All consumed outputs are provided — node is bypassed
             bypassed_nodes.add(node.name)
@@ -541,7 +542,7 @@ def _find_bypassed_inputs(graph: Graph, provided: set[str], inputs_spec: InputSp
     # Cycle entry point params are excluded: providing them means bootstrapping
     # the cycle, NOT bypassing the producer.
     for node in graph._nodes.values():
-        non_cycle_outputs = set(node.outputs) - cycle_ep_params
+        non_cycle_outputs = set(node.outputs) - cycle_ep_params - set(node.inputs)
         if non_cycle_outputs and non_cycle_outputs <= provided:
             bypassed_nodes.add(node.name)
 
